@@ -9,6 +9,7 @@ import (
 	"time"
 
 	sdk "github.com/cosmos/cosmos-sdk/types"
+	banktypes "github.com/cosmos/cosmos-sdk/x/bank/types"
 
 	oracletypes "github.com/jackalLabs/canine-chain/v4/x/oracle/types"
 	storagetypes "github.com/jackalLabs/canine-chain/v4/x/storage/types"
@@ -98,6 +99,9 @@ func (s C05) Events(env world.Env, mm mc.Model) []string {
 	for _, b := range buys {
 		evs = append(evs, "Buy:"+b)
 	}
+	// tokens reaching a gauge's escrow account from outside the gauge: a referral commission (the referral field takes any
+	// address) and a plain bank transfer
+	evs = append(evs, "BuyRefGauge", "SendToGauge")
 	if !s.Boundary {
 		evs = append(evs, "Shutdown:P1", "InitProv:P1")
 	}
@@ -227,6 +231,27 @@ func (s C05) Apply(env world.Env, mm mc.Model, ev string) mc.Step {
 		days, _ := strconv.ParseInt(p[1], 10, 64)
 		gbs, _ := strconv.ParseInt(p[2], 10, 64)
 		if env.Deliver(storagetypes.NewMsgBuyStorage(u, u, days, gbs*1_000_000_000, "ujkl")).OK() {
+			st.Outcome = "ok"
+		}
+	case "BuyRefGauge", "SendToGauge":
+		gs := w.App.StorageKeeper.GetAllPaymentGauges(env.Ctx())
+		if len(gs) == 0 {
+			break
+		}
+		acc, err := storagetypes.GetGaugeAccount(gs[0])
+		if err != nil {
+			break
+		}
+		var msg sdk.Msg
+		if p[0] == "BuyRefGauge" {
+			b := w.A("P1").Bech
+			bm := storagetypes.NewMsgBuyStorage(b, b, 30, 2_000_000_000, "ujkl")
+			bm.Referral = acc.String()
+			msg = bm
+		} else {
+			msg = banktypes.NewMsgSend(w.A("feeder").Addr, acc, sdk.NewCoins(sdk.NewInt64Coin("ujkl", 1_000_000)))
+		}
+		if env.Deliver(msg).OK() {
 			st.Outcome = "ok"
 		}
 	case "Shutdown":
